@@ -37,8 +37,13 @@
 (*     it with an unknown (top / vecw) value (_Mem_read takes an unknown    *)
 (*     part of a zone object for an unwritten one);                         *)
 (*   StaleItems  iff the failing byte lies in two different items of the    *)
-(*     branch's own map (merge joins the recorded value of the earlier one  *)
-(*     although a later item overwrote it, and writes it last);             *)
+(*     branch's own map, or in an item whose recorded value is not what a   *)
+(*     read of the location returns (merge joins the recorded value of an   *)
+(*     item although a later store overwrote it);                           *)
+(*   VecStoreDropsItem  iff the failing byte is written in the branch's     *)
+(*     memory but no item of the branch's map covers it, and the branch     *)
+(*     stores through a vector-valued pointer (_Mem_write deletes the items *)
+(*     of the locations such a store may write; merge() only walks items);  *)
 (*   TopPointerKey  under a complexity threshold a vector-valued pointer    *)
 (*     key of mi has become top in mm: the failing cell reads back as the   *)
 (*     untouched location (the store is kept under an unknown location).    *)
@@ -133,15 +138,29 @@ UnderTopItem(o) == \E j \in 1..Len(T.items) :
 TopKey == \E j \in 1..Len(T.items) : T.items[j].mm_has = 1 /\ T.items[j].loc.k = "ptr" /\ T.items[j].loc.base.k = "top"
 (* the byte p+o lies in two different items of branch i's map: the recorded value of the earlier *)
 (* one is stale there                                                                         *)
+StaleAt(i, o) ==
+  \E j \in 1..Len(T.items) :
+     LET it == T.items[j] has == IF i = 1 THEN it.m1_has ELSE it.m2_has w == IF i = 1 THEN it.m1_w ELSE it.m2_w
+         own == IF i = 1 THEN it.m1_item ELSE it.m2_item rd == IF i = 1 THEN it.m1 ELSE it.m2 IN
+     has = 1 /\ it.loc.k = "ptr" /\ (\E d \in KeyOffs(it.loc) : d <= o /\ o < d + w \div 8) /\ own.w = rd.w /\ own # rd
 CoveredTwice(i, o) ==
   Cardinality({j \in 1..Len(T.items) :
                  LET it == T.items[j] has == IF i = 1 THEN it.m1_has ELSE it.m2_has w == IF i = 1 THEN it.m1_w ELSE it.m2_w IN
                  has = 1 /\ it.loc.k = "ptr" /\ \E d \in KeyOffs(it.loc) : d <= o /\ o < d + w \div 8}) >= 2
+(* the byte p+o is written in branch i's memory but no item of branch i's map covers it: a store *)
+(* through a vector-valued pointer deleted the (wider) item of a location it may write          *)
+Itemless(i, o) ==
+  /\ \E j \in 1..Len(T.items) : (IF i = 1 THEN T.items[j].m1_has ELSE T.items[j].m2_has) = 1
+                                  /\ T.items[j].loc.k = "ptr" /\ T.items[j].loc.base.k = "vec"
+  /\ ~\E j \in 1..Len(T.items) :
+        LET it == T.items[j] has == IF i = 1 THEN it.m1_has ELSE it.m2_has w == IF i = 1 THEN it.m1_w ELSE it.m2_w IN
+        has = 1 /\ it.loc.k = "ptr" /\ \E d \in KeyOffs(it.loc) : d <= o /\ o < d + w \div 8
 CellClass(x) ==
   IF x[1] = "m" /\ IsSelfMem(T.cells[x[2]].mm, T.cells[x[2]].o) /\ UnderTopItem(T.cells[x[2]].o) THEN "TopReadAsBottom"
   ELSE IF x[1] = "m" /\ IsSelfMem(T.cells[x[2]].mm, T.cells[x[2]].o) /\ TopKey /\ T.thr > 0 THEN "TopPointerKey"
   ELSE IF x[1] = "m" /\ x[3] = 2 /\ T.cells[x[2]].o \in LostBytes THEN "SkipWiderSecond"
-  ELSE IF x[1] = "m" /\ x[3] \in {1, 2} /\ CoveredTwice(x[3], T.cells[x[2]].o) THEN "StaleItems"
+  ELSE IF x[1] = "m" /\ x[3] \in {1, 2} /\ (CoveredTwice(x[3], T.cells[x[2]].o) \/ StaleAt(x[3], T.cells[x[2]].o)) THEN "StaleItems"
+  ELSE IF x[1] = "m" /\ x[3] \in {1, 2} /\ Itemless(x[3], T.cells[x[2]].o) THEN "VecStoreDropsItem"
   ELSE IF x[1] = "i" /\ x[2] \in WiderSecond /\ x[3] = 2 THEN "SkipWiderSecond"
   ELSE IF x[1] = "k" /\ T.items[x[2]].loc.k = "ptr" /\ T.items[x[2]].loc.base.k = "top" /\ T.thr > 0 THEN "TopPointerKey"
   ELSE ""
